@@ -465,6 +465,45 @@ func c04(r *core.Run) {
 						if strings.HasPrefix(d, "call:strings.IndexByte<0") || strings.HasPrefix(d, "call:strings.LastIndexByte<0") {
 							refusal = "subject without the separator the subscription patterns guarantee (cannot be delivered by a conformant server)"
 						}
+						// the subject is split by a private helper that reports failure: every failing return
+						// of the helper must be one of those separator-missing edges
+						if cnd, succ := e.Norm(); true {
+							var hc *ssa.Call
+							idx := 0
+							switch x := cnd.(type) {
+							case *ssa.Call:
+								hc = x
+							case *ssa.Extract:
+								if c2, ok := x.Tuple.(*ssa.Call); ok {
+									hc, idx = c2, x.Index
+								}
+							}
+							if hc != nil {
+								if cal := hc.Common().StaticCallee(); cal != nil && len(cal.Blocks) > 0 && cal.Pkg == h.Pkg {
+									want := succ == 0
+									n, all := 0, true
+									for _, hr := range core.Returns(cal) {
+										if idx >= len(hr.Results) || isConstBool(hr.Results[idx], !want) {
+											continue
+										}
+										n++
+										okRet := false
+										for _, he := range dominatingEdges(hr) {
+											hd := describeCond(he)
+											if strings.HasPrefix(hd, "call:strings.IndexByte<0") || strings.HasPrefix(hd, "call:strings.LastIndexByte<0") {
+												okRet = true
+											}
+										}
+										if !okRet {
+											all = false
+										}
+									}
+									if n > 0 && all {
+										refusal = "subject without the separator the subscription patterns guarantee (cannot be delivered by a conformant server)"
+									}
+								}
+							}
+						}
 					}
 					switch {
 					case core.Dominates(enq.(ssa.Instruction), ret):
